@@ -263,3 +263,11 @@ Fixpoint valid (g : dag) (vis : list nat) (l : list nat) : Prop :=
   | [] => True
   | i :: r => ~ In i vis /\ (forall a, In a (args (node_at g i)) -> In a vis) /\ valid g (i :: vis) r
   end.
+
+(* weighted nodes carry well-formed cumulative weights: non-decreasing from 0, positive total
+   (DiscreteRange: weights >= 0 accumulated; Options drops zero weights and rejects an empty domain) *)
+Fixpoint mono (prev : Q) (cum : list Q) : bool :=
+  match cum with [] => true | c :: r => Qle_bool prev c && mono c r end.
+Definition good_cum (cum : list Q) : bool := mono 0 cum && negb (Qle_bool (last cum 0) 0).
+Definition good_kind (k : nkind) : bool := match k with KDRangeW _ cum => good_cum cum | _ => true end.
+Definition good_dagb (g : dag) : bool := forallb (fun n => good_kind (kind n)) g.
